@@ -11,6 +11,12 @@
 (*   "dev"   : the device sweep - EVERY (family, revision) of the device table, the name "latest"      *)
 (*             included, through every entry point that is given a device (ComputeFor); the RoT type  *)
 (*             of the case is the one the table gives for that revision                               *)
+(*   "tab"   : CONSTRUCTION HISTORIES of one table object - per scenario (builder flavour, how the      *)
+(*             object came to exist, n target keys, which slot is written twice and with what first)   *)
+(*             EVERY order of the writes: all orders of filling 1..4 slots by index, every single      *)
+(*             replacement at every position, append / replace / clear-and-refill for the list-like    *)
+(*             builders; the value expected at the end (and wherever the contents are a key list on    *)
+(*             the way, "peek") is the documented construction over what the slots hold then           *)
 EXTENDS Rot, Json, IOUtils
 VARIABLES mode, scen, hist, done
 gvars == <<mode, scen, hist, done>>
@@ -101,14 +107,140 @@ FileEnc(rot, path, alt) ==
   ELSE IF rot = "cert_block_1" /\ path = "certblock_cfg" THEN (IF alt THEN Enc("path", "crt.pem") ELSE Enc("path", "crt.der"))
   ELSE IF rot \in {"srk_table_ahab", "srk_table_ahab_v2"} THEN (IF alt THEN Enc("path", "pub.der") ELSE Enc("path", "pub.pem"))
   ELSE (IF alt THEN Enc("path", "crt.der") ELSE Enc("path", "pub.pem"))
-FilesInit == /\ Want("files") /\ mode = "files" /\ done = FALSE /\ obj = NoObj /\ out = NoObj
+FilesInit == /\ Want("files") /\ mode = "files" /\ done = FALSE /\ obj = NoObj /\ out = NoObj /\ tab = NoTab
              /\ \E s \in FileScen :
                   /\ scen = s
                   /\ fs = [f \in Files |-> IF f <= s.n THEN [has |-> TRUE, k |-> Key(s.cls, f), enc |-> FileEnc(s.rot, s.path, FALSE)] ELSE NoFile]
                   /\ hist = [f \in 1..s.n |-> [a |-> "WriteFile", f |-> f, k |-> Key(s.cls, f), enc |-> FileEnc(s.rot, s.path, FALSE)]]
                   /\ act = [a |-> "WriteFile"]
-GInit == CaseInit \/ HistInit \/ FilesInit \/ DevInit
 
+\* ---------------------------------------------------------------- construction histories of one table object (mode "tab")
+\* scenario: fl builder, origin / m: how the object comes to exist and how many slots it holds then, cls / n / sel: the TARGET contents
+\* (slot i shall hold Key(cls, sel[i]) in the end), repl: the slot that is written TWICE (0: none), old: what its first write puts there
+\* ("O" another key, "same" the target itself, "other" the target of the NEXT slot - a duplicate for a while), form: how keys are handed
+\* over, cert / used: when the root certificate of a v1 block is added and of which slot, clear: AHAB - fill with the reversed list,
+\* compute, clear(), fill again; peek: the value is also read on the way, whenever the contents are a key list
+OtherCls(c) == CASE c = "rsa2048" -> "rsa3072" [] c = "rsa3072" -> "rsa4096" [] c = "rsa4096" -> "rsa2048" [] OTHER -> c
+OldKey(c)   == IF IsRsa(c) THEN Key(OtherCls(c), 1) ELSE Key(c, 5)          \* the RSA pool has four keys per size: the old key has another size
+TargetK(sc, i) == Key(sc.cls, sc.sel[i])
+FirstK(sc, i)  == IF i \notin {sc.repl, sc.repl2} THEN TargetK(sc, i)
+                  ELSE CASE sc.old = "O" -> OldKey(sc.cls) [] sc.old = "same" -> TargetK(sc, i) [] sc.old = "other" -> TargetK(sc, (i % sc.n) + 1)
+\* CA flag of the record in slot i (SRK flavours): none, all, every second one (HAB only; an AHAB table has one flag)
+FormOf(sc, i) == CASE sc.fl = "rkht1" -> "hash"
+                   [] sc.fl = "cb1"   -> <<"crt", "ca", "hash">>[((i + sc.n + sc.repl) % 3) + 1]
+                   [] sc.fl = "hab"   -> (IF sc.ca = "all" \/ (sc.ca = "alt" /\ i % 2 = 0) THEN "ca" ELSE "crt")
+                   [] OTHER           -> (IF sc.ca = "all" THEN "pubca" ELSE "pub")
+RevK(sc, i) == TargetK(sc, sc.n + 1 - i)                   \* the reversed list (what an AHAB table holds before it is cleared)
+InitSlots(sc) == [i \in 1..sc.m |-> Slot(IF sc.clear THEN RevK(sc, i) ELSE FirstK(sc, i), CaOf(sc.fl, FormOf(sc, i)))]
+TabSels(n) == IF Full THEN FewSel(n) \cup {[i \in 1..n |-> i]} ELSE {s \in Sel(n) : s = [i \in 1..n |-> i] \/ s = [i \in 1..n |-> 5 - i]}
+TabCls(fl) == IF Full THEN ClsOf(RotOfFl(fl))
+              ELSE CASE Indexed(fl) -> {"rsa2048"} [] fl = "hab" -> {"rsa2048", "p521"} [] fl = "ahab" -> {"p256", "rsa2048"} [] OTHER -> {"p384"}
+ScenBase == [fl |-> "none", origin |-> "new", m |-> 0, cls |-> "none", n |-> 0, sel |-> <<>>, repl |-> 0, repl2 |-> 0, old |-> "O", ca |-> "none",
+             cert |-> "none", used |-> 0, clear |-> FALSE, peek |-> FALSE, la |-> 0, lb |-> 0]
+IdSel(n) == [i \in 1..n |-> i]
+\* indexed builders (RKHTv1, CertBlockV1): the order of the writes is FREE.  ro = <<slot written twice, what its first write puts, a SECOND slot
+\* that is written twice (thorough)>>
+IdxGen(fl, c, n, s, OG, RO, CU, PK) ==
+   {[ScenBase EXCEPT !.fl = fl, !.origin = og[1], !.m = og[2], !.cls = c, !.n = n, !.sel = s, !.repl = ro[1], !.old = ro[2], !.repl2 = ro[3],
+                     !.cert = cu[1], !.used = cu[2], !.peek = pk] : og \in OG, ro \in RO, cu \in CU, pk \in PK}
+IdxScens == UNION {UNION {
+   LET OG == {<<"new", 0>>} \cup {<<o, m>> : o \in Origins(fl) \ {"new"}, m \in 1..n}
+       RO == {<<0, "O", 0>>} \cup {<<j, o, 0>> : j \in 1..n, o \in (IF Full \/ n < 4 THEN {"O", "same", "other"} ELSE {"O"})}
+             \cup (IF Full THEN {<<j, "O", j2>> : j \in 1..n, j2 \in 1..n} ELSE {})
+       CU == IF fl = "cb1" THEN {<<w, u>> : w \in {"first", "last"}, u \in 1..n} ELSE {<<"none", 0>>}
+   IN  \* the main lines (RSA-2048, key i in slot i): everything
+       IdxGen(fl, "rsa2048", n, IdSel(n), OG, RO, CU, BOOLEAN)
+       \* the other key assignments: for the plain orders
+       \cup UNION {IdxGen(fl, "rsa2048", n, s, {<<"new", 0>>}, {<<0, "O", 0>>}, CU, BOOLEAN) : s \in TabSels(n) \ {IdSel(n)}}
+       \* thorough: the other RSA sizes (the size of a key does not interact with the order of the calls): plain orders and one replacement
+       \cup UNION {IdxGen(fl, c, n, IdSel(n), {<<"new", 0>>}, {<<0, "O", 0>>} \cup {<<j, "O", 0>> : j \in 1..n}, CU, {FALSE}) : c \in TabCls(fl) \ {"rsa2048"}}
+   : n \in 1..4} : fl \in {"rkht1", "cb1"}}
+QuickCert(sc) == <<sc.cert, sc.used>> \in {<<"first", sc.n>>, <<"last", 1>>}
+IdxScenOK(sc) == /\ (sc.old = "other" => sc.n >= 2)
+                 /\ (sc.repl2 > 0 => sc.repl2 > sc.repl /\ sc.fl = "rkht1" /\ sc.origin = "new" /\ ~sc.peek)   \* two replacements: on the bare table
+                 /\ (sc.peek => sc.old = "O" /\ (Full \/ sc.n <= 3))                      \* reading on the way: once per order is enough
+                 /\ (sc.origin # "new" => (Full \/ sc.n \in {2, 3}) /\ sc.old = "O" /\ ~sc.peek)
+                 \* a parsed block has its certificate: of a key it holds, and not of the one that is about to be replaced
+                 /\ (sc.origin = "parsed" /\ sc.fl = "cb1" => /\ sc.cert = "first" /\ sc.used <= sc.m /\ sc.used # sc.repl
+                                                             /\ (Full \/ sc.used = (IF sc.repl = 1 THEN 2 ELSE 1)))
+                 /\ (~Full /\ sc.fl = "cb1" /\ sc.origin # "parsed" => QuickCert(sc))
+                 /\ (sc.sel # IdSel(sc.n) => sc.origin = "new" /\ sc.repl = 0)               \* the other key assignments: for the plain orders
+                 /\ (~Full /\ sc.fl = "cb1" /\ sc.n = 4 /\ sc.repl > 0 => sc.cert = "last")
+                 /\ (~Full /\ sc.fl = "cb1" /\ sc.n >= 3 => sc.old = "O")          \* quick: what the first write puts there is varied on the bare table
+                 \* thorough: the other RSA sizes on the main lines (the size of a key does not interact with the order of the calls)
+                 /\ (sc.cls # "rsa2048" => sc.origin = "new" /\ ~sc.peek /\ sc.repl2 = 0 /\ sc.old = "O" /\ (sc.fl = "cb1" => QuickCert(sc)))
+\* list-like builders (HAB SrkTable, AHAB SRKTable / SRKTableV2): append in order, replace an entry (HAB), clear and refill (AHAB)
+LstScens == UNION {UNION {UNION {UNION {
+   {[ScenBase EXCEPT !.fl = fl, !.origin = og[1], !.m = og[2], !.cls = c, !.n = n, !.sel = s, !.repl = ro[1], !.old = ro[2],
+                     !.ca = ca, !.clear = cl, !.peek = pk] :
+        og \in {<<"new", 0>>} \cup {<<o, m>> : o \in Origins(fl) \ {"new"}, m \in 1..n},
+        ro \in {<<0, "O">>} \cup (IF fl = "hab" THEN {<<j, o>> : j \in 1..n, o \in {"O", "other"}} ELSE {}),
+        ca \in (IF fl = "hab" THEN {"none", "all", "alt"} ELSE {"none", "all"}),
+        cl \in (IF fl = "hab" THEN {FALSE} ELSE BOOLEAN), pk \in (IF fl = "hab" THEN BOOLEAN ELSE {FALSE})}
+   : s \in TabSels(n)} : n \in NOf(RotOfFl(fl))} : c \in TabCls(fl)} : fl \in {"hab", "ahab", "ahab2"}}
+LstScenOK(sc) == /\ (sc.old = "other" => sc.n >= 2)
+                 /\ (sc.origin = "parsed" => sc.fl = "hab" \/ sc.m = 4)                    \* an exported AHAB table has four records
+                 /\ (sc.origin = "parsed" /\ sc.m = sc.n /\ sc.repl = 0 => sc.clear)       \* ... something must still happen to the object
+                 /\ (sc.peek => sc.repl = 0 /\ sc.origin = "new")
+                 /\ (sc.sel = IdSel(sc.n) \/ (sc.origin = "new" /\ sc.repl = 0))
+                 /\ (Full \/ sc.ca # "alt" \/ (sc.origin = "new" /\ sc.n >= 2))
+                 /\ (Full \/ sc.origin # "parsed" \/ sc.fl # "hab" \/ (sc.ca = "none" /\ sc.cls = "rsa2048" /\ sc.old = "O"))
+                 /\ (IsRsa(sc.cls) /\ sc.fl = "ahab2" => FALSE)
+\* a PFR page object is exported with list A, with list B, with list A again (the ROTKH field is each time that of the list handed over)
+PfrIds(id)   == CASE id = 1 -> <<1, 2, 3>> [] id = 2 -> <<3, 1>> [] id = 3 -> <<2>> [] id = 4 -> <<4, 3, 2, 1>>
+PfrList(c, id) == [i \in 1..Len(PfrIds(id)) |-> Key(c, PfrIds(id)[i])]
+PfrScens == {[ScenBase EXCEPT !.fl = fc[1], !.cls = fc[2], !.la = a, !.lb = b] :
+                fc \in {<<"pfr1", c>> : c \in (IF Full THEN RsaClasses ELSE {"rsa2048"})} \cup {<<"pfr21", "p256">>, <<"pfr21", "p384">>},
+                a \in 1..4, b \in 1..4}
+TabScens == {sc \in IdxScens : IdxScenOK(sc)} \cup {sc \in LstScens : LstScenOK(sc)} \cup {sc \in PfrScens : sc.la # sc.lb}
+TabInit == /\ mode = "tab" /\ Want("tab") /\ done = FALSE /\ hist = <<>> /\ Init /\ scen \in TabScens
+GInit == CaseInit \/ HistInit \/ FilesInit \/ DevInit \/ TabInit
+NSet(i)   == Cardinality({x \in 1..Len(hist) : hist[x].a = "SetSlot" /\ hist[x].i = i})
+NApp      == Cardinality({x \in 1..Len(hist) : hist[x].a = "AppendSlot"})
+NClear    == Cardinality({x \in 1..Len(hist) : hist[x].a = "ClearT"})
+Writes(i) == NSet(i) + (IF i <= scen.m THEN 1 ELSE 0)                                  \* what the object held at the start counts as a write
+Needed(i) == IF i \in {scen.repl, scen.repl2} THEN 2 ELSE 1
+AllWritten == \A i \in 1..scen.n : Writes(i) = Needed(i)
+LastIs(a) == Len(hist) > 0 /\ hist[Len(hist)].a = a
+Started == hist # <<>>
+DoStartT == ~Started /\ StartT(scen.fl, scen.origin, InitSlots(scen),
+                               IF scen.fl = "cb1" /\ scen.origin = "parsed" THEN FirstK(scen, scen.used) ELSE NoKey)
+\* peek: as soon as the contents are a key list and were not read yet, they are read (deterministic: no subsets of reading points)
+MustPeek == scen.peek /\ Started /\ TabLegal(tab) /\ ~LastIs("ComputeT") /\ ~LastIs("StartT")
+CertNow(when) == scen.fl = "cb1" /\ scen.origin # "parsed" /\ scen.cert = when /\ tab.cert = NoKey
+DoAddCertificate == /\ Started /\ ~MustPeek
+                    /\ \/ CertNow("first") /\ LastIs("StartT")
+                       \/ CertNow("last") /\ AllWritten
+                    /\ AddCertificate(TargetK(scen, scen.used))
+IdxReady == Started /\ Indexed(scen.fl) /\ ~MustPeek /\ ~(CertNow("first") /\ LastIs("StartT"))
+DoSetSlot == /\ IdxReady
+             /\ \E i \in 1..scen.n : /\ Writes(i) < Needed(i)
+                                     /\ SetSlot(i, IF Writes(i) = 0 THEN FirstK(scen, i) ELSE TargetK(scen, i), FormOf(scen, i))
+\* list-like: phase 1 (only with clear) fill with the reversed list, compute, clear; phase 2 append slot by slot, the replaced entry
+\* (HAB) first gets its old content and is overwritten at ANY later point
+Phase2 == ~scen.clear \/ NClear = 1
+LstReady == Started /\ ~Indexed(scen.fl) /\ ~Whole(scen.fl) /\ ~MustPeek
+NAll == Cardinality({x \in 1..Len(hist) : hist[x].a = "SetAll"})
+DoSetAll == /\ Started /\ Whole(scen.fl) /\ NAll < 3 /\ (LastIs("StartT") \/ LastIs("ComputeT"))
+            /\ SetAll(PfrList(scen.cls, IF NAll = 1 THEN scen.lb ELSE scen.la))
+DoFillRev == /\ LstReady /\ ~Phase2 /\ Len(tab.slots) < scen.n /\ ~LastIs("ComputeT")
+             /\ AppendSlot(RevK(scen, Len(tab.slots) + 1), FormOf(scen, 1))
+DoClearT == LstReady /\ ~Phase2 /\ LastIs("ComputeT") /\ ClearT
+NextIdx == Len(tab.slots) + 1
+DoAppendSlot == /\ LstReady /\ Phase2 /\ NextIdx <= scen.n
+                /\ AppendSlot(FirstK(scen, NextIdx), FormOf(scen, NextIdx))
+DoReplace == /\ LstReady /\ Phase2 /\ scen.repl > 0 /\ scen.repl <= Len(tab.slots) /\ NSet(scen.repl) = 0
+             /\ SetSlot(scen.repl, TargetK(scen, scen.repl), FormOf(scen, scen.repl))
+LstWritten == Phase2 /\ Len(tab.slots) = scen.n /\ (scen.repl > 0 => NSet(scen.repl) = 1)
+TabWritten == IF Indexed(scen.fl) THEN AllWritten /\ ~CertNow("last") ELSE IF Whole(scen.fl) THEN NAll = 3 ELSE LstWritten
+DoComputeT == /\ Started /\ ~LastIs("ComputeT")
+              /\ \/ MustPeek
+                 \/ TabWritten
+                 \/ Whole(scen.fl) /\ LastIs("SetAll")                                     \* every export is looked at
+                 \/ ~Indexed(scen.fl) /\ ~Whole(scen.fl) /\ ~Phase2 /\ Len(tab.slots) = scen.n   \* before the clear
+              /\ ComputeT
+TabNext == DoStartT \/ DoAddCertificate \/ DoSetSlot \/ DoFillRev \/ DoClearT \/ DoAppendSlot \/ DoReplace \/ DoSetAll \/ DoComputeT
+TabComplete == Started /\ TabWritten /\ LastIs("ComputeT")
 \* ---------------------------------------------------------------- histories
 NU == IF Full THEN {<<1, 1>>, <<2, 1>>, <<2, 2>>, <<3, 1>>, <<3, 2>>, <<3, 3>>, <<4, 1>>, <<4, 2>>, <<4, 3>>, <<4, 4>>}
       ELSE {<<1, 1>>, <<2, 2>>, <<4, 3>>}
@@ -137,9 +269,14 @@ DoRewrite == /\ LastA = "ReadByPath"
 FilesNext == mode = "files" /\ (DoRead \/ DoRewrite)
 Steps == IF mode = "files" THEN Len(hist) - scen.n ELSE Len(hist)
 Limit == IF mode \in {"case", "dev"} THEN 1 ELSE IF mode = "cb21" /\ Len(hist) > 0 /\ hist[1].cons = 1 /\ hist[1].isk THEN 3 ELSE Depth + (IF mode = "files" THEN 0 ELSE 1)
-GNext == \/ /\ Steps < Limit /\ (Cb21Next \/ Cb1Next \/ FilesNext)
+GNext == \/ /\ mode # "tab" /\ Steps < Limit /\ (Cb21Next \/ Cb1Next \/ FilesNext)
             /\ hist' = Append(hist, act') /\ UNCHANGED <<mode, scen, done>>
-         \/ /\ Steps = Limit /\ ~done /\ done' = TRUE
+         \/ /\ mode = "tab" /\ ~done /\ ~TabComplete /\ TabNext
+            /\ hist' = Append(hist, act') /\ UNCHANGED <<mode, scen, done>>
+         \/ /\ mode = "tab" /\ ~done /\ TabComplete /\ done' = TRUE
+            /\ PrintT(ToJson([mode |-> mode, scen |-> scen, hist |-> hist]))
+            /\ UNCHANGED <<vars, mode, scen, hist>>
+         \/ /\ mode # "tab" /\ Steps = Limit /\ ~done /\ done' = TRUE
             /\ PrintT(ToJson([mode |-> mode, hist |-> hist]))
             /\ UNCHANGED <<vars, mode, scen, hist>>
 
@@ -183,6 +320,26 @@ RevisionDecidesGen == IsDev => LET e == hist[1] IN
    /\ \A r2 \in RevNames(Dev(e.fam)) :
          LET c2 == [e.c EXCEPT !.rot = RotOf(e.fam, r2)] IN
          Legal(c2) => ((DocCase(c2) = e.term) <=> (RotOf(e.fam, r2) = e.c.rot))
+\* ---------------------------------------------------------------- lemmas of the construction histories
+IsTabC == mode = "tab" /\ act.a = "ComputeT"
+\* LAST WRITE WINS, computed from the HISTORY alone (not from the state the actions kept): the key list the value is made of holds, in
+\* slot i, what the last write to slot i put there (indexed builders; what the object held at the start if the slot was never written)
+LastSet(i) == LET W == {x \in 1..Len(hist) : hist[x].a = "SetSlot" /\ hist[x].i = i} IN
+              IF W = {} THEN (IF i <= scen.m THEN FirstK(scen, i) ELSE NoKey) ELSE hist[CHOOSE x \in W : \A y \in W : y <= x].k
+LastWriteWins == IsTabC /\ Indexed(scen.fl) =>
+                   /\ \A i \in 1..Len(act.keys) : act.keys[i] = LastSet(i)
+                   /\ \A i \in (Len(act.keys) + 1)..4 : LastSet(i) = NoKey
+\* ORDER FREE: whatever the order of the writes, once everything is written the value is the documented construction over the TARGET
+\* of the scenario - the same term for every history of the scenario
+TargetReached == IsTabC /\ TabWritten /\ ~Whole(scen.fl) =>
+                   LET ks == [i \in 1..scen.n |-> TargetK(scen, i)]
+                       cas == [i \in 1..scen.n |-> CaOf(scen.fl, FormOf(scen, i))] IN
+                   act.keys = ks /\ act.term = Doc(RotOfFl(scen.fl), ks, cas) /\ act.table = DocTable(RotOfFl(scen.fl), ks, cas)
+\* a page that is exported with list A, then B, then A again hands out for A what it handed out the first time, and something else for B
+PfrBack == IsTabC /\ Whole(scen.fl) /\ TabWritten =>
+             /\ act.keys = PfrList(scen.cls, scen.la) /\ act.term = hist[3].term /\ hist[5].keys = PfrList(scen.cls, scen.lb) /\ hist[5].term # act.term
+\* the certificate of a v1 block points at the slot that holds its key at the end, wherever it was added
+CertPoints == IsTabC /\ TabWritten /\ scen.fl = "cb1" => act.index = scen.used
 \* ---------------------------------------------------------------- invariants of the histories
 BlockLen == mode = "cb21" /\ act.a = "Export21" =>
    act.term.len = (LET o == out  c == o.keys[1].cls  n == Len(o.keys) IN
